@@ -157,12 +157,13 @@ func init() {
 			maxDev = 3
 		}
 		cells := familyLayout(maxDev)
+		cells = append(cells, withPrior(familyLayout(1), "x", 0)...)
 		for _, c := range cells {
 			c.Env = []string{layoutMarkers}
 		}
 		// documented notation mixes on a fixed layout: every well-formed notation set of F4/F5 that the reference deems well-formed
 		e.Rep.Bound("layout_deviations", maxDev)
-		e.Rep.Rule(fmt.Sprintf("layout alphabet of DESIGN §2.2 (16 dimensions, radices %v; incl. operand types declared in a sibling file named like another generator's output, a 70 000-byte source line, a package doc that is nothing but a go:generate directive, directive-looking lines inside raw strings and block comments) around a trivially matchable struct pair: every layout within %d deviations of the README layout "+
+		e.Rep.Rule(fmt.Sprintf("every layout within 1 deviation once more onto an output path that holds a longer earlier generation; layout alphabet of DESIGN §2.2 (16 dimensions, radices %v; incl. operand types declared in a sibling file named like another generator's output, a 70 000-byte source line, a package doc that is nothing but a go:generate directive, directive-looking lines inside raw strings and block comments) around a trivially matchable struct pair: every layout within %d deviations of the README layout "+
 			"plus the complete sub-product methods x name length x body-size class x in-body comment x interfaces x interface doc; oracle: exit 0, output parses, set of generated functions == methods of the marked interfaces, "+
 			"no marker text or converter interface left; non-trivial = accepted layout (each cell is a distinct rendered file)", layoutRadices, maxDev))
 		var sampled atomic.Int32
